@@ -35,6 +35,10 @@ pub enum POp {
     /// advance by this many units of 10 ms
     Advance(u32),
     Cleanup,
+    /// a session whose transport takes 10 ms to shut down (close() waits for it)
+    AddSlowClose,
+    /// cleanup_expired() and, this many ms into it, a request asking for an idle session
+    CleanupVsGet(u16),
 }
 
 #[derive(Clone, Debug, Serialize, Deserialize)]
@@ -45,6 +49,9 @@ pub struct PoolCase {
     pub ops: Vec<POp>,
 }
 
+/// how long the transport of a slow-closing session takes to shut down
+const SLOW_CLOSE_MS: u64 = 10;
+
 pub struct PoolFam;
 
 struct MSess {
@@ -53,6 +60,7 @@ struct MSess {
     idle_since: Instant,
     harness_closed: bool,
     reaped: bool,
+    slow: bool,
     _link: Link,
 }
 
@@ -80,6 +88,8 @@ impl Family for PoolFam {
                     1 => any::<u16>().prop_map(POp::Kill),
                     4 => dt.prop_map(POp::Advance),
                     1 => Just(POp::Cleanup),
+                    1 => Just(POp::AddSlowClose),
+                    1 => prop_oneof![Just(0u16), Just(1), Just(5), Just(9), Just(11), Just(15), 0u16..40].prop_map(POp::CleanupVsGet),
                 ];
                 proptest::collection::vec(op, 1..30).prop_map(move |ops| PoolCase { interval_s: i, timeout_s: t, min_idle: m, ops })
             })
@@ -88,7 +98,7 @@ impl Family for PoolFam {
     fn run(&self, case: &PoolCase, _cx: &CaseCtx) -> CaseResult {
         let mut out = Outcome::new();
         let c = case.clone();
-        let res: Result<(bool, bool), Fail> = run_virtual(async move {
+        let res: Result<(bool, bool, bool), Fail> = run_virtual(async move {
             let case = c;
             let interval = Duration::from_secs(case.interval_s);
             let timeout = Duration::from_secs(case.timeout_s);
@@ -101,6 +111,7 @@ impl Family for PoolFam {
             let mut next_tick = 1u64;
             let mut nt_tick = false;
             let mut nt_get = false;
+            let mut nt_race = false;
 
             // the predicate around a tick (or an explicit cleanup) evaluated at time `t`
             async fn judge(pool: &SessionPool, model: &mut [MSess], t: Instant, timeout: Duration, m: usize, closed_before: &[bool], what: &str) -> Result<bool, Fail> {
@@ -163,7 +174,72 @@ impl Family for PoolFam {
                         let s = client_session(&mut l, default_padding(), None);
                         s.set_seq(pool.next_seq());
                         pool.add_idle_session(s.clone()).await;
-                        model.push(MSess { s, in_map: true, idle_since: Instant::now(), harness_closed: false, reaped: false, _link: l });
+                        model.push(MSess { s, in_map: true, idle_since: Instant::now(), harness_closed: false, reaped: false, slow: false, _link: l });
+                    }
+                    POp::AddSlowClose => {
+                        let mut l = link(PipeParams::default(), PipeParams::default());
+                        l.c2s.arm(crate::lab_mem::pipe::Fault::ShutdownDelay { ms: SLOW_CLOSE_MS });
+                        let s = client_session(&mut l, default_padding(), None);
+                        s.set_seq(pool.next_seq());
+                        pool.add_idle_session(s.clone()).await;
+                        model.push(MSess { s, in_map: true, idle_since: Instant::now(), harness_closed: false, reaped: false, slow: true, _link: l });
+                    }
+                    POp::CleanupVsGet(ms_in) => {
+                        // this op lets virtual time pass (the delay, the slow closes): keep it clear of the
+                        // reaper's next tick, which the model observes only from inside `Advance`
+                        if (t_create + interval * next_tick as u32).saturating_duration_since(Instant::now()) < Duration::from_millis(900) {
+                            continue;
+                        }
+                        let closed_before: Vec<bool> = model.iter().map(|ms| ms.s.is_closed()).collect();
+                        let t = Instant::now();
+                        let both = within(WATCHDOG, async {
+                            tokio::join!(pool.cleanup_expired(), async {
+                                tokio::time::sleep(Duration::from_millis(*ms_in as u64)).await;
+                                pool.get_idle_session().await
+                            })
+                        })
+                        .await;
+                        let Some(((), got)) = both else {
+                            return Err(Fail::plain("C12.live", "cleanup_expired / get_idle_session did not return when run at the same time"));
+                        };
+                        // housekeeping has finished: what it closed, and what the request was given
+                        if let Some(g) = &got {
+                            let i = model.iter().position(|ms| Arc::ptr_eq(&ms.s, g));
+                            let Some(i) = i else {
+                                return Err(Fail::plain("C12.live", "get_idle_session returned a session that was never added"));
+                            };
+                            ensure!(model[i].in_map, "C12.live", "get_idle_session returned session #{i} which is not in the pool any more (handed out twice / already reaped)");
+                            model[i].in_map = false;
+                            ensure!(
+                                !g.is_closed() || closed_before[i],
+                                "C12.inuse",
+                                "session #{i} was handed to a request {} ms into cleanup_expired() and closed by that same cleanup: a session in use was torn down by pool housekeeping",
+                                ms_in
+                            );
+                            ensure!(!closed_before[i], "C12.live", "get_idle_session returned a closed session (seq {})", g.seq());
+                            nt_race = true;
+                        }
+                        for (i, ms) in model.iter_mut().enumerate() {
+                            if ms.in_map && ms.s.is_closed() {
+                                if !closed_before[i] {
+                                    let age = t.saturating_duration_since(ms.idle_since);
+                                    ensure!(age >= timeout, "C12.onlyexpired", "cleanup_expired (racing with a request): closed session #{i} which had been idle for only {:?} (timeout {:?})", age, timeout);
+                                    ms.reaped = true;
+                                }
+                            }
+                        }
+                        // entries of closed sessions may or may not linger after a skipped visit: bounds
+                        let lo = model.iter().filter(|ms| ms.in_map && !ms.s.is_closed()).count();
+                        let hi = model.iter().filter(|ms| ms.in_map).count();
+                        let n = pool.idle_count().await;
+                        ensure!(lo <= n && n <= hi, "C12.count", "after cleanup racing with a request: idle_count() = {n}, model allows {lo}..={hi}");
+                        if n == lo {
+                            for ms in model.iter_mut() {
+                                if ms.in_map && ms.s.is_closed() {
+                                    ms.in_map = false;
+                                }
+                            }
+                        }
                     }
                     POp::Get => {
                         let had_closed = model.iter().any(|ms| ms.in_map && ms.s.is_closed());
@@ -211,11 +287,18 @@ impl Family for PoolFam {
                     POp::Kill(i) => {
                         if !model.is_empty() {
                             let k = idx(*i, model.len());
+                            if model[k].slow && (t_create + interval * next_tick as u32).saturating_duration_since(Instant::now()) < Duration::from_millis(900) {
+                                continue;
+                            }
                             let _ = within(WATCHDOG, model[k].s.close()).await;
                             model[k].harness_closed = true;
                         }
                     }
                     POp::Cleanup => {
+                        // closing a slow transport lets virtual time pass: keep clear of the next tick
+                        if model.iter().any(|ms| ms.slow && ms.in_map) && (t_create + interval * next_tick as u32).saturating_duration_since(Instant::now()) < Duration::from_millis(900) {
+                            continue;
+                        }
                         let closed_before: Vec<bool> = model.iter().map(|ms| ms.s.is_closed()).collect();
                         let t = Instant::now();
                         ensure!(within(WATCHDOG, pool.cleanup_expired()).await.is_some(), "C12.live", "cleanup_expired did not return");
@@ -233,7 +316,9 @@ impl Family for PoolFam {
                                 tokio::time::sleep_until(pre).await;
                             }
                             let closed_before: Vec<bool> = model.iter().map(|ms| ms.s.is_closed()).collect();
-                            tokio::time::sleep_until(tick_at + Duration::from_millis(1)).await;
+                            // (the reaper closes one session after the other; slow transports take 10 ms each)
+                            let slow = model.iter().filter(|ms| ms.slow && ms.in_map).count() as u64;
+                            tokio::time::sleep_until(tick_at + Duration::from_millis(1 + slow * (SLOW_CLOSE_MS + 1))).await;
                             nt_tick |= judge(&pool, &mut model, tick_at, timeout, m, &closed_before, &format!("reaper tick #{next_tick}")).await?;
                             next_tick += 1;
                         }
@@ -252,9 +337,10 @@ impl Family for PoolFam {
                     );
                 }
             }
-            Ok((nt_tick, nt_get))
+            Ok((nt_tick, nt_get, nt_race))
         });
-        let (nt_tick, nt_get) = res?;
+        let (nt_tick, nt_get, nt_race) = res?;
+        out.class_if(nt_race, "request-served-during-cleanup");
         out.nt(nt_tick || nt_get);
         out.class_if(nt_tick, "tick-with-expired-surplus");
         out.class_if(nt_get, "get-with-closed-entry");
